@@ -168,6 +168,9 @@ def classify(c, r, target="sql.sqlite"):
             return "append-branches-misaligned"
     if re.search(r"GROUP BY (?:[^()]*?, )?-?[0-9]+(?:,| |\)|$)", sql) and (st == "rows-differ" or (st == "sqlite-error" and "GROUP BY" in det)):
         return "group-by-constant-read-as-ordinal"
+    if st == "rows-differ" and re.search(r"SELECT DISTINCT (?:ON \([^)]*\) )?[^()]* LIMIT [0-9]+", sql) and \
+            re.search(r"\btake\b.*\n.*group \{[^}]*\} \((?:sort \{[^}]*\} \| )?take 1\)", prql, re.S):
+        return "take-then-distinct-in-one-select"
     if st == "sqlite-error":
         if "OFFSET" in re.sub(r"LIMIT [0-9]+ OFFSET [0-9]+", "", sql) and "syntax error" in det:
             return "offset-without-limit"
